@@ -7,7 +7,7 @@ export GOFLAGS=-mod=mod GOPROXY=off GOSUMDB=off GOTOOLCHAIN=local
 git clean -xfdq build coq replays 2>/dev/null || true
 ./setup.sh
 # the committed baseline of the generated tables (used only when an emitter cannot re-read its table)
-mkdir -p coq/GenBaseline && cp coq/Gen/*.v coq/GenBaseline/
+mkdir -p coq/GenBaseline && cp coq/Gen/*.v coq/GenBaseline/ && rm -f coq/GenBaseline/ApiDesc.v
 for i in 01 02 03 04 05 06 07 08 09 10 11 12 13 14 15 16 17 18 19; do
   ./check C$i --tier quick --seed 1 | grep -v '^KNOWN-FINDING' | tail -1
 done
